@@ -1,0 +1,33 @@
+//go:build verif
+
+package language
+
+// Verification hooks (property C20): read-only access to the unexported tables and helpers.
+// Add-only file; compiled only with -tags verif.
+
+// VerifC20LangInfo is one record of languagesInfos.
+type VerifC20LangInfo struct {
+	Lang    string
+	Scripts [3]Script
+}
+
+// VerifC20LanguagesInfos returns a copy of languagesInfos and knownLangsCount.
+func VerifC20LanguagesInfos() ([]VerifC20LangInfo, int) {
+	out := make([]VerifC20LangInfo, len(languagesInfos))
+	for i, l := range languagesInfos {
+		out[i] = VerifC20LangInfo{Lang: string(l.lang), Scripts: l.scripts}
+	}
+	return out, int(knownLangsCount)
+}
+
+// VerifC20CanonMap returns canonMap.
+func VerifC20CanonMap() [256]byte { return canonMap }
+
+// VerifC20BinarySearchLang runs binarySearchLang on the first (segment == 0) or
+// second (segment == 1) part of languagesInfos.
+func VerifC20BinarySearchLang(l Language, segment int) (int, bool) {
+	if segment == 0 {
+		return binarySearchLang(l, languagesInfos[:knownLangsCount])
+	}
+	return binarySearchLang(l, languagesInfos[knownLangsCount:])
+}
